@@ -48,6 +48,18 @@ def run(job):
     try:
         if job["k"] == "tables":
             return tables()
+        if job["k"] == "lex":
+            out = io.StringIO()
+            lx = get_parser().lexer
+            toks = []
+            with contextlib.redirect_stdout(out), contextlib.redirect_stderr(out):
+                lx.input(job["text"])
+                while True:
+                    t = lx.token()
+                    if t is None:
+                        break
+                    toks.append([t.type, t.value])
+            return {"tokens": toks, "illegal": out.getvalue().count("Illegal character")}
         if job["k"] == "parse":
             out = io.StringIO()
             with contextlib.redirect_stdout(out), contextlib.redirect_stderr(out):
